@@ -22,6 +22,34 @@ type parserInfo struct {
 // nonNilEdgeBlock returns the block entered when call result c is non-nil, if c is tested directly.
 func nonNilEdgeBlocks(c *ssa.Call) []*ssa.BasicBlock {
 	var out []*ssa.BasicBlock
+	// (value, ok) results: the blocks on the true edge of a branch on the ok component
+	for _, r := range *c.Referrers() {
+		ex, ok := r.(*ssa.Extract)
+		if !ok || !isBoolType(ex.Type()) {
+			continue
+		}
+		var visit func(v ssa.Value, neg bool)
+		visit = func(v ssa.Value, neg bool) {
+			if v.Referrers() == nil {
+				return
+			}
+			for _, rr := range *v.Referrers() {
+				switch t := rr.(type) {
+				case *ssa.If:
+					if neg {
+						out = append(out, t.Block().Succs[1])
+					} else {
+						out = append(out, t.Block().Succs[0])
+					}
+				case *ssa.UnOp:
+					if t.Op == token.NOT {
+						visit(t, !neg)
+					}
+				}
+			}
+		}
+		visit(ex, false)
+	}
 	for _, r := range *c.Referrers() {
 		bo, ok := r.(*ssa.BinOp)
 		if !ok || (bo.Op != token.EQL && bo.Op != token.NEQ) {
@@ -73,7 +101,7 @@ func reachesValueReturn(b *ssa.BasicBlock) bool {
 }
 
 func (pi *parserInfo) opConst(c *ssa.Call) (string, bool) {
-	if c.Call.StaticCallee() != pi.parseOp || len(c.Call.Args) < 2 {
+	if c.Call.StaticCallee() == nil || !opMatcherSet(pi.p)[c.Call.StaticCallee()] || len(c.Call.Args) < 2 {
 		return "", false
 	}
 	return constString(c.Call.Args[1])
@@ -416,14 +444,19 @@ func resolveConjunction(pi *parserInfo, v ssa.Value) string {
 	if c, ok := v.(*ssa.Call); ok && c.Call.StaticCallee() != nil {
 		name := c.Call.StaticCallee().String()
 		if name == "strings.ToLower" || name == "strings.ToUpper" {
+			var pc *ssa.Call
 			if ld, ok := c.Call.Args[0].(*ssa.UnOp); ok && ld.Op == token.MUL {
-				if pc, ok := ld.X.(*ssa.Call); ok {
-					if s, ok := pi.opConst(pc); ok && guardedEqualityReturn(pi.parseOp) {
-						if name == "strings.ToLower" {
-							return strings.ToLower(s)
-						}
-						return strings.ToUpper(s)
+				pc, _ = ld.X.(*ssa.Call) // *parseOperator(c)
+			}
+			if ex, ok := c.Call.Args[0].(*ssa.Extract); ok && ex.Index == 0 {
+				pc, _ = ex.Tuple.(*ssa.Call) // value, ok := matchOperator(c)
+			}
+			if pc != nil {
+				if s, ok := pi.opConst(pc); ok && guardedEqualityReturn(baseOpMatcher(pi.p)) {
+					if name == "strings.ToLower" {
+						return strings.ToLower(s)
 					}
+					return strings.ToUpper(s)
 				}
 			}
 		}
@@ -441,15 +474,27 @@ func guardedEqualityReturn(fn *ssa.Function) bool {
 	okAny := false
 	for _, b := range fn.Blocks {
 		ret, ok := b.Instrs[len(b.Instrs)-1].(*ssa.Return)
-		if !ok || len(ret.Results) != 1 {
+		if !ok || len(ret.Results) < 1 {
 			continue
 		}
 		if isNilValue(ret.Results[0], 0) {
 			continue
 		}
+		if c, isC := ret.Results[0].(*ssa.Const); isC && len(ret.Results) > 1 {
+			_ = c
+			continue // ("", false)
+		}
 		fa, ok := ret.Results[0].(*ssa.FieldAddr)
 		if !ok {
-			return false
+			// the value flavour: return X.f, true
+			ld, isLd := ret.Results[0].(*ssa.UnOp)
+			if !isLd || ld.Op != token.MUL {
+				return false
+			}
+			fa, ok = ld.X.(*ssa.FieldAddr)
+			if !ok {
+				return false
+			}
 		}
 		// find a dominating comparison  *(&X.field) == prm  on its true edge
 		guarded := false
@@ -509,4 +554,78 @@ func isNilValue(v ssa.Value, d int) bool {
 		return n > 0
 	}
 	return false
+}
+
+// opMatcherSet: the operator matchers of the token parser: the anchor (*tokenStream).parseOperator and
+// every tokenStream method that it forwards its own operator parameter to, or that forwards its own
+// string parameter to a known matcher (a (value, ok) flavour next to a pointer flavour, say).
+var opMatcherMemo = map[*Prog]map[*ssa.Function]bool{}
+
+func opMatcherSet(p *Prog) map[*ssa.Function]bool {
+	if m, ok := opMatcherMemo[p]; ok {
+		return m
+	}
+	m := map[*ssa.Function]bool{}
+	opMatcherMemo[p] = m
+	anchor := p.Func(p.ExpPkg, "(*tokenStream).parseOperator")
+	if anchor == nil {
+		return m
+	}
+	m[anchor] = true
+	isStream := func(f *ssa.Function) bool {
+		return f.Signature.Recv() != nil && strings.Contains(f.Signature.Recv().Type().String(), "tokenStream") && len(f.Params) == 2 && isStringType(f.Params[1].Type())
+	}
+	for changed := true; changed; {
+		changed = false
+		fns := p.AllModuleFuncs(p.ExpPkg)
+		for f := range m {
+			fns = append(fns, f) // a matcher kept only for the tests is not among the program's reachable functions
+		}
+		for _, f := range fns {
+			if !isStream(f) || p.isTestPos(f.Pos()) {
+				continue
+			}
+			for _, b := range f.Blocks {
+				for _, in := range b.Instrs {
+					c, ok := in.(*ssa.Call)
+					if !ok || c.Call.StaticCallee() == nil || len(c.Call.Args) != 2 || c.Call.Args[1] != ssa.Value(f.Params[1]) || c.Call.Args[0] != ssa.Value(f.Params[0]) {
+						continue
+					}
+					g := c.Call.StaticCallee()
+					if !isStream(g) {
+						continue
+					}
+					// f forwards its operator to g
+					if m[f] && !m[g] {
+						m[g] = true
+						changed = true
+					}
+					if m[g] && !m[f] {
+						m[f] = true
+						changed = true
+					}
+				}
+			}
+		}
+	}
+	return m
+}
+
+// baseOpMatcher: the matcher that actually looks at the token (the one that forwards to no other matcher).
+func baseOpMatcher(p *Prog) *ssa.Function {
+	set := opMatcherSet(p)
+	for f := range set {
+		forwards := false
+		for _, b := range f.Blocks {
+			for _, in := range b.Instrs {
+				if c, ok := in.(*ssa.Call); ok && c.Call.StaticCallee() != nil && set[c.Call.StaticCallee()] {
+					forwards = true
+				}
+			}
+		}
+		if !forwards {
+			return f
+		}
+	}
+	return nil
 }
